@@ -58,7 +58,12 @@ def check_instance(ctx, info, cyclic, strict=False):
     except Exception as e:
         ctx.report(f"{name} raised {e!r}", rep); return
     rk = zoo.routes_key(name)
+    def rebuild(extra):
+        inf2 = dict(info); inf2["kwargs"] = dict(info["kwargs"]); inf2["kwargs"]["solver_options"] = dict(info["kwargs"].get("solver_options") or {}, **extra)
+        m2 = zoo.construct(inf2); m2.solve(); return m2
     if not ok or not m.is_solved():
+        if common.solver_artifact(ctx, rebuild, lambda m2: m2.is_solved()):
+            return
         ctx.report(f"{name}.solve() did not succeed", rep); return
     routes = m.get_solution()[rk]
     rep["solution"] = routes
@@ -106,6 +111,8 @@ def check_instance(ctx, info, cyclic, strict=False):
     rep["antichain"] = anti
     if len(routes) < len(anti):
         ctx.report(f"{name}: cover of {len(routes)} routes but {len(anti)} pairwise incompatible elements exist (checker inconsistency)", rep, concrete=False); return
+    if len(routes) > len(anti) and common.solver_artifact(ctx, rebuild, lambda m2: m2.is_solved() and len(m2.get_solution()[rk]) == len(anti)):
+        return
     if len(routes) > len(anti):
         # no certificate of equal size: decide by exhaustive minimum cover (DAG, edge mode)
         if not cyclic and not node:
